@@ -528,6 +528,36 @@ def _co_update(ctx, rid, cls, tab):
                        "" if ok else "%s is written here without %s: the value describes a state of %s that other threads may already "
                        "have changed (a stale count overwrites a newer one)" % (fld, g[5:], best[1]), fn=top.label, inst=inst)
                 n += 1
+        # a container that runs parallel to another one (one entry per entry) follows every REARRANGEMENT of it: where the
+        # elements of the described container are moved around (remove_if / sort / partition / element assignment), the
+        # parallel entries are moved the same way - cutting the tail to the new length leaves them attached to the wrong elements
+        REARR = ("std::remove_if", "std::remove", "std::sort", "std::stable_sort", "std::unique", "std::partition",
+                 "std::stable_partition", "std::rotate", "std::reverse")
+        if any(fl_["name"] == fld and re.match(r"^std::(vector|deque)<", fl_["type"]) for r_ in fb.records(tmpl=cls) for fl_ in r_.fields):
+            for f, top in class_functions(fb, cls):
+                if top.kind in ("ctor", "dtor"):
+                    continue
+                def rearranged(name):
+                    for s_ in f.stmts.values():
+                        if s_["k"] == "CallExpr" and callee_fq(s_) in REARR and any(
+                                d["k"] == "MemberExpr" and d["m"].get("name") == name and d["m"].get("is_field")
+                                for a_ in s_["args"] for d in f.descendants(f.s(a_))):
+                            return s_
+                        if s_["k"] == "CXXOperatorCallExpr" and s_.get("op") == "=" and s_["args"]:
+                            l_ = unwrap(f, f.s(s_["args"][0]))
+                            if l_ is not None and l_["k"] == "CXXOperatorCallExpr" and l_.get("op") == "[]" and l_["args"] and \
+                                    path(f, f.s(l_["args"][0])) == "this." + name:
+                                return s_
+                    return None
+                rc = rearranged(best[1])
+                if rc is None:
+                    continue
+                rb = rearranged(fld)
+                ctx.ob(rid, rb is not None, f.loc(rc), "%s is rearranged together with %s" % (fld, best[1]),
+                       "" if rb is not None else "%s moves the elements of %s around here but only adjusts the LENGTH of %s: after a "
+                       "removal from the middle the remaining entries carry the bookkeeping of their former neighbours"
+                       % (top.name, best[1], fld), fn=top.label, inst=f.qname)
+                n += 1
         for c, ch in changers.items():
             if c != best[1]:
                 continue
